@@ -20,6 +20,7 @@ Byte strings are hex ("-" = empty).  See vlib/harness.py for the Python side.
 #include <stdlib.h>
 #include <string.h>
 #include <sys/mman.h>
+#include <sys/prctl.h>
 #include <sys/resource.h>
 #include <sys/stat.h>
 #include <sys/types.h>
@@ -36,6 +37,8 @@ int __lsan_do_recoverable_leak_check(void);
 #else
 #define HAVE_LSAN 0
 #endif
+
+static pid_t helper_pid; /* idle child whose memory the "proc" scan mode reads */
 
 #define NCOMP 4
 #define NRULES 8
@@ -827,7 +830,7 @@ static void do_scan(char** tk, int ntk)
   c.msgs = open_memstream(&mj, &ml);
   c.matches = open_memstream(&xj, &xl);
   c.invf = open_memstream(&ij, &il);
-  c.buf = bufs[b].p;
+  c.buf = strcmp(mode, "proc") == 0 ? NULL : bufs[b].p;
   c.buflen = bufs[b].n;
   yr_get_configuration_uint32(YR_CONFIG_MAX_MATCH_DATA, &c.max_match_data);
 
@@ -908,6 +911,30 @@ static void do_scan(char** tk, int ntk)
       close(fd);
     }
     unlink(path);
+    calls = 1;
+  }
+  else if (strcmp(mode, "proc") == 0)
+  {
+    // memory of a small idle helper process (started once, killed at exit); the buffer slot is ignored
+    if (helper_pid <= 0)
+    {
+      helper_pid = fork();
+      if (helper_pid == 0)
+      {
+        char* const argv[] = {(char*) "sleep", (char*) "100000", NULL};
+        for (int fd = 3; fd < 256; fd++) close(fd);
+        prctl(PR_SET_PDEATHSIG, SIGKILL);
+        execv("/bin/sleep", argv);
+        _exit(127);
+      }
+      if (helper_pid < 0)
+        die("fork helper");
+      usleep(50000);
+    }
+    if (is_scanner)
+      API(rc = yr_scanner_scan_proc(sc, helper_pid));
+    else
+      API(rc = yr_rules_scan_proc(ru, helper_pid, flags, scan_cb, &c, timeout));
     calls = 1;
   }
   else if (strcmp(mode, "blocks") == 0)
@@ -1000,6 +1027,17 @@ emit:
 static char current_case[256];
 
 static int cfg_dirty = 0;
+static pid_t helper_pid = 0;
+
+static void kill_helper(void)
+{
+  if (helper_pid > 0)
+  {
+    kill(helper_pid, SIGKILL);
+    waitpid(helper_pid, NULL, 0);
+    helper_pid = 0;
+  }
+}
 static int fds_at_begin = -1;
 static char fsbox[700];
 
@@ -1804,6 +1842,7 @@ int main(int argc, char** argv)
   int rc = yr_initialize();
   if (rc != ERROR_SUCCESS)
     die("yr_initialize failed: %d", rc);
+  atexit(kill_helper);
   if (argc > 1 && strcmp(argv[1], "--oom") == 0)
   {
     if (argc < 7)
